@@ -219,7 +219,7 @@ def rebuild_case(grog, base, k, nodes, fsel):
     answers of the real `grog owners` / `grog rdeps -t`."""
     ws = os.path.join(base, "rb%d" % k)
     trace = os.path.join(base, "rbtrace%d.txt" % k)
-    sl.render_workspace(nodes, ws, trace=trace)
+    sl.render_workspace(nodes, ws, trace=trace, spell=vlib.Rng(vlib.seed() * 7919 + k))
     env = sl.grog_env(os.path.join(base, "rbroot%d" % k))
     cmds = []
     if any(nd["kind"] == "t" and not sl.is_test_name(nd["name"]) for nd in nodes):
@@ -390,7 +390,7 @@ def run(out, tier):
     jobs = []
     for wi, (nodes, qs) in enumerate(worlds):
         ws = os.path.join(base, "ws%d" % wi)
-        sl.render_workspace(nodes, ws, r=r)
+        sl.render_workspace(nodes, ws, r=r, spell=vlib.Rng(r.next()))
         for q in qs:
             jobs.append((wi, q))
     env = sl.grog_env(os.path.join(base, "root"))
